@@ -110,6 +110,9 @@ def _split(body):
 
 def tlc(spec, cfg, name, env=None, workers=None, timeout=1500, extra=None, heap="8g", simulate=None, cont=False):
     """Run TLC on spec/<spec>.tla with spec/<cfg>.cfg. Every run has its own metadir under build/."""
+    # time limits are a protection against a hung TLC, not part of any judgement: generous, and three times as generous in
+    # the thorough tier (a loaded or slower machine must not turn a long batch into a broken check)
+    timeout = int(timeout * (3 if os.environ.get("VERIF_TIER") == "thorough" else 2))
     md = os.path.join(BUILD, "tlc", name)
     shutil.rmtree(md, ignore_errors=True)
     os.makedirs(md)
